@@ -21,6 +21,21 @@ def make_jumps(tr, rows):
     return Jumps(tr, conversion_method=lambda t, minimal_residence=0: df.copy())
 
 
+def aggregations(c, label_seq):
+    """site_pair_count_matrix / multiple_collective of a Collective, as small integer tables."""
+    codes = {lab: i for i, lab in enumerate(sorted(set(label_seq)))}
+    M = c.site_pair_count_matrix()
+    types = c.site_pair_count_matrix_labels()
+    spm = [[codes[types[i][0]], codes[types[i][1]], codes[types[j][0]], codes[types[j][1]], int(M[i, j])]
+           for i in range(len(types)) for j in range(len(types)) if M[i, j]]
+    multi = []
+    if c.collective:
+        jumps, counts = c.multiple_collective()
+        for pr, n_ in zip(jumps, counts):
+            multi.append([int(pr[0]['start']), int(pr[0]['stop']), int(pr[1]['start']), int(pr[1]['stop']), int(n_)])
+    return [codes[x] for x in label_seq], spm, multi
+
+
 def observe(c):
     pairs = [[[int(ei[k]) for k in sites_drive.J_COLS], [int(ej[k]) for k in sites_drive.J_COLS]] for ei, ej in c.collective]
     return pairs, int(c.n_solo_jumps), int(c.n_coll_jumps)
@@ -145,9 +160,10 @@ def run(rep):
         tr = world_tr(w, rng)
         col = Collective(jumps=make_jumps(tr, rows), sites=w.structure, lattice=w.lattice, max_steps=window, max_dist=cut)
         pairs, nsolo, ncoll = observe(col)
+        labs, spm, multi = aggregations(col, list(w.structure.labels))
         recs.append({'b': b, 'jumps': rows, 'window': window, 'sites': w.sites_k, 'G': G, 'N': N, 'R': R,
                      'thr': int(math.ceil(cut * cut * N * N)), 'pairs': pairs, 'nsolo': nsolo, 'ncoll': ncoll,
-                     'meta': f'{fam} cut={cut:.4f}'})
+                     'labels': labs, 'spm': spm, 'multi': multi, 'meta': f'{fam} cut={cut:.4f}'})
     # realised histories through Jumps.collective()
     for b in range(n_cases, n_cases + (6 if quick else 60)):
         fam = fams[b % len(fams)]
